@@ -40,6 +40,8 @@ LEAN_MODULES = ['Yaql.Props.C07', 'Yaql.Props.C07Gen']
 REQUIRED_THEOREMS = [
     'Yaql.Props.C07.underscore_denied', 'Yaql.Props.C07.underscore_denied_access',
     'Yaql.Props.C07.whitelist_exact', 'Yaql.Props.C07.blacklist_exact',
+    'Yaql.Props.C07.whitelist_plain_names_exact', 'Yaql.Props.C07.blacklist_plain_names_exact',
+    'Yaql.Props.C07.near_miss_refused', 'Yaql.Props.C07.near_miss_not_blocked',
     'Yaql.Props.C07.remap_targets_blacklisted', 'Yaql.Props.C07.remap_target_denied',
     'Yaql.Props.C07.same_decision', 'Yaql.Props.C07.reached_member',
     'Yaql.Props.C07.not_yaqlized_no_access', 'Yaql.Props.C07.switch_off_no_access',
@@ -1293,8 +1295,10 @@ def run(env, res):
     res.rule = ('part A: one case per (FunctionDefinition of the live registry, parameter slot, other-argument variant, '
                 'canary as itself / in a list / in a dict, direct AST / call(name,args,kwargs), positional / keyword) plus '
                 'fixed text forms; all non-trivial (a host object is in the data).  part B: one case per (settings, '
-                'member name, access form[, .secret of the result]); non-trivial = the settings have a whitelist, '
-                'blacklist or remapping')
+                'member name, access form[, .secret of the result]); member names = the members of the probe class + names '
+                'derived from the settings\' own plain-name entries (extending one at either end, containing one, proper '
+                'prefix / suffix, two joined, case variant); lists of one, two, three and more plain names, some substrings '
+                'of each other; non-trivial = the settings have a whitelist, blacklist or remapping')
     if env['replay']:
         rp = json.load(open(env['replay']))['case']
         if rp.get('part') == 'B':
